@@ -38,6 +38,21 @@ fn cross_go<const B: usize, const L: usize, const D: usize, const LD: usize>(m: 
     if let Some(Err(ToUintError::ValueTooLarge(_, v))) = m.must_in("uint_try_from", || <Uint<D, LD> as ruint::UintTryFrom<Uint<B, L>>>::uint_try_from(x)) {
         m.produce(&v);
     }
+    // the widening square with this destination as result type: only Uint<2 * BITS> is the product type, every
+    // other size is refused at run time (documented); whatever comes back must be a canonical value
+    if D == 2 * B {
+        if let Some(v) = m.must_in("widening_mul", || x.widening_mul::<B, L, D, LD>(x)) {
+            m.produce(&v);
+        }
+    } else {
+        match m.call(|| x.widening_mul::<B, L, D, LD>(x)) {
+            Ok(v) => {
+                m.produce(&v);
+                m.fail("widening_mul.bad-size-accepted", &format!("panic: Uint<{D}> is not the product type of Uint<{B}> x Uint<{B}>"), &format!("{:x?}", v.as_limbs()));
+            }
+            Err(_) => {}
+        }
+    }
 }
 
 macro_rules! cross_dispatch {
